@@ -135,4 +135,31 @@ theorem cstream_return_value (co : Nat → Nat) (s : State) (inSize outSize : Na
       ((step co s inSize outSize .eEnd).1.streamStage = .init ∧ (step co s inSize outSize .eEnd).1.frameEnded = true)) :=
   ⟨CStream.ret_zero_iff_all_emitted co s inSize outSize endOp h, CStream.end_zero_iff_frame_complete co s inSize outSize h⟩
 
+open CStream in
+/-- **cstream_endStream_completion**: the legacy end directive `ZSTD_endStream` reports completion (returns 0) exactly when its `e_end` call
+does - i.e. (by `cstream_return_value`) exactly when the frame, epilogue included, has been handed to the caller and the context is back in its
+initial stage; in particular once the frame is complete the next answer is 0, whatever path completed it (buffered or straight into the
+caller's buffer), and a non-zero answer means bytes of this frame are still owed -/
+theorem cstream_endStream_completion (co : Nat → Nat) (s : State) (outSize : Nat) (cksum : Bool) (h : Inv s) :
+    ((endStream co s outSize cksum).2.2 = .val 0 ↔ (step co s 0 outSize .eEnd).2.ret = .val 0) ∧
+    ((endStream co s outSize cksum).2.2 = .val 0 ↔
+      ((endStream co s outSize cksum).1.streamStage = .init ∧ (endStream co s outSize cksum).1.frameEnded = true)) := by
+  have hz := CStream.end_zero_iff_frame_complete co s 0 outSize h
+  have key : (endStream co s outSize cksum).2.2 = .val 0 ↔ (step co s 0 outSize .eEnd).2.ret = .val 0 := by
+    unfold endStream
+    constructor
+    · intro he
+      cases hr : (step co s 0 outSize .eEnd).2.ret with
+      | err => simp [hr] at he
+      | val v =>
+        simp only [hr] at he
+        have hv : endStreamRet (step co s 0 outSize .eEnd).1 v cksum = 0 := by injection he
+        unfold endStreamRet at hv
+        have : v = 0 := by omega
+        rw [this]
+    · intro hr
+      have hf := (hz.mp hr).2
+      simp [hr, endStreamRet, hf]
+  exact ⟨key, key.trans hz⟩
+
 end ZstdVerif.Props.C10
